@@ -482,6 +482,61 @@ class _Cwd:
         os.chdir(self.old)
 
 
+HANG_SECONDS = 20
+
+
+def _in_child(fn, seconds):
+    """run fn() in a forked child; -> ("ok", result) | ("hang", None).  An endless loop inside a
+    compiled extension cannot be interrupted from Python, so the child is killed instead."""
+    import pickle
+    import select
+    import signal
+    r, w = os.pipe()
+    pid = os.fork()
+    if pid == 0:
+        status = 1
+        try:
+            os.close(r)
+            with os.fdopen(w, "wb") as f:
+                pickle.dump(fn(), f)
+            status = 0
+        except BaseException as e:   # noqa: BLE001
+            try:
+                os.write(2, ("c40 child: %r\n" % (e,)).encode())
+            except OSError:
+                pass
+        finally:
+            os._exit(status)
+    os.close(w)
+    data = b""
+    deadline = seconds
+    import time
+    t0 = time.time()
+    hung = False
+    with os.fdopen(r, "rb") as f:
+        while True:
+            left = deadline - (time.time() - t0)
+            if left <= 0:
+                hung = True
+                break
+            ready, _, _ = select.select([f], [], [], left)
+            if not ready:
+                hung = True
+                break
+            chunk = os.read(f.fileno(), 1 << 16)
+            if not chunk:
+                break
+            data += chunk
+    if hung:
+        os.kill(pid, signal.SIGKILL)
+        os.waitpid(pid, 0)
+        return "hang", None
+    os.waitpid(pid, 0)
+    if not data:
+        raise RuntimeError("c40 child died without a result")
+    return "ok", pickle.loads(data)
+
+
 def _rev(spec, i):
     return b"null:" if i is None else rid(spec, i)
 
@@ -562,33 +617,44 @@ def run_btamper(inp):
             return {"write_error": type(e).__name__}
         pos = inp["pos"] % len(text)
         t = bytearray(text)
-        if t[pos] == inp["byte"]:
+        if inp.get("cut"):
+            pos = max(0, len(text) - inp["cut"])          # truncation: the last `cut` bytes are missing
+            t = t[:pos]
+        elif t[pos] == inp["byte"]:
             t[pos] = (inp["byte"] + 1) % 256
         else:
             t[pos] = inp["byte"]
         dst, dpath = _seed_repo(spec, src, spec["fmt"], base, [])
         before = all_ids(spec, dst)
         try:
-            try:
-                info = read_bundle(BytesIO(bytes(t)))
-                if bfmt == "4":
-                    info.install_revisions(dst, stream_input=inp.get("stream", True))
+            stream = inp.get("stream", True)
+
+            def attempt():
+                try:
+                    info = read_bundle(BytesIO(bytes(t)))
+                    if bfmt == "4":
+                        info.install_revisions(dst, stream_input=stream)
+                    else:
+                        info.install_revisions(dst)
+                    rejected = None
+                except Exception as e:   # noqa: BLE001  (any refusal counts as detection)
+                    rejected = type(e).__name__
+                with dst.lock_read():
+                    now = list(dst.all_revision_ids())
+                foreign = [r for r in now if not any(r == rid(spec, i) for i in range(len(spec["g"])))]
+                if foreign:
+                    problem = "revisions the source does not have: %r" % (foreign,)
                 else:
-                    info.install_revisions(dst)
-                rejected = None
-            except Exception as e:   # noqa: BLE001  (any refusal counts as detection)
-                rejected = type(e).__name__
-            problem = None
-            with dst.lock_read():
-                now = list(dst.all_revision_ids())
-            foreign = [r for r in now if not any(r == rid(spec, i) for i in range(len(spec["g"])))]
-            if foreign:
-                problem = "revisions the source does not have: %r" % (foreign,)
-            else:
-                problem = _compare(spec, src, dst, now, graphs=(bfmt == "4"))
-            after = sorted(ridx(spec, r) for r in now) if not foreign else None
-            return {"rejected": rejected, "before": before, "after": after, "problem": problem,
-                    "where": pos, "len": len(text)}
+                    problem = _compare(spec, src, dst, now, graphs=(bfmt == "4"))
+                after = sorted(ridx(spec, r) for r in now) if not foreign else None
+                return {"rejected": rejected, "before": before, "after": after, "problem": problem,
+                        "where": pos, "len": len(text), "hang": False}
+
+            how, res = _in_child(attempt, HANG_SECONDS)
+            if how == "hang":
+                return {"rejected": "Hang", "before": before, "after": before, "problem": None,
+                        "where": pos, "len": len(text), "hang": True}
+            return res
         finally:
             shutil.rmtree(dpath, ignore_errors=True)
 
